@@ -43,6 +43,10 @@ type Run struct {
 	// Extra distinct-case keys (for harnesses that enumerate sub-cases in one run).
 	Cases     int
 	lastState string
+	// OverrideTape, when set together with a violation, is the tape written to the replay file instead of the
+	// tape consumed (used by enumerating harnesses to point the replay at the one failing sub-case).
+	OverrideTape []int
+	caseHashes   map[uint64]bool // sub-case hash -> non-trivial
 
 	mu sync.Mutex
 }
@@ -106,6 +110,16 @@ func (r *Run) State(sig, ev string) {
 		r.Trans[r.lastState+" --"+ev+"--> "+sig] = struct{}{}
 	}
 	r.lastState = sig
+}
+
+// AddCase registers one enumerated sub-case of this run (distinctness is by the given key).
+func (r *Run) AddCase(key string, nontrivial bool) {
+	if r.caseHashes == nil {
+		r.caseHashes = map[uint64]bool{}
+	}
+	h := hash64(key)
+	r.caseHashes[h] = r.caseHashes[h] || nontrivial
+	r.Cases++
 }
 
 // Choice is one enabled event.
@@ -195,6 +209,15 @@ func (g *Gate) Park(id string) any {
 func (g *Gate) ParkCtx(id string, done <-chan struct{}) (any, bool) {
 	ch := make(chan any)
 	g.mu.Lock()
+	if _, dup := g.parked[id]; dup {
+		for i := 2; ; i++ {
+			alt := fmt.Sprintf("%s#%d", id, i)
+			if _, d := g.parked[alt]; !d {
+				id = alt
+				break
+			}
+		}
+	}
 	g.parked[id] = ch
 	g.mu.Unlock()
 	select {
